@@ -5,20 +5,20 @@
    effect log; the log is judged by the ledger (LedgerCore.apply_all); what the harness observes at rest
    (live items, slots of live item buffers, hygiene flag) is computed FROM THE LEDGER.  Definitions only. *)
 From Coq Require Import ZArith NArith List Bool Lia.
-From DS Require Import RunnerLib LedgerCore LedgerKll LedgerTup LedgerFi LedgerReq.
+From DS Require Import RunnerLib LedgerCore LedgerKll LedgerTup LedgerFi LedgerReq LedgerVo.
 Import ListNotations.
 Local Open Scope Z_scope.
 
-Inductive ost := OK (s : kll) | OT (s : tup) | OF (s : fim) | OQ (s : req).
+Inductive ost := OK (s : kll) | OT (s : tup) | OF (s : fim) | OQ (s : req) | OV (s : vo).
 Record obj := { o_st : ost; o_led : ledger }.
 
-Definition kind_of (o : obj) : Z := match o_st o with OK _ => 0 | OT _ => 1 | OF _ => 2 | OQ _ => 3 end.
+Definition kind_of (o : obj) : Z := match o_st o with OK _ => 0 | OT _ => 1 | OF _ => 2 | OQ _ => 3 | OV _ => 4 end.
 
 (* a REQ sketch keeps one ledger per compactor inside its state; the object's ledger is their concatenation *)
 Definition mkq (s : req) : obj := {| o_st := OQ s; o_led := q_ledger s |}.
 
 Definition retained (o : obj) : N :=
-  match o_st o with OK s => k_retained s | OT s => t_num s | OF s => f_num s | OQ s => q_retained s end.
+  match o_st o with OK s => k_retained s | OT s => t_num s | OF s => f_num s | OQ s => q_retained s | OV s => v_retained s end.
 Definition extras (o : obj) : N :=
   match o_st o with OK s => k_extras s | OQ s => q_extras s | _ => 0%N end.
 
@@ -37,6 +37,7 @@ Definition obj_copy (o : obj) : option (obj * bool) :=
            | OK s => match kll_copy s with Some (s', e) => Some (OK s', e) | None => None end
            | OT s => match tup_copy s with Some (s', e) => Some (OT s', e) | None => None end
            | OF s => match fim_copy s with Some (s', e) => Some (OF s', e) | None => None end
+           | OV s => match vo_copy s with Some (s', e) => Some (OV s', e) | None => None end
            | OQ _ => None
            end in
   match r with
@@ -50,14 +51,14 @@ Definition obj_destroy (o : obj) : bool :=
   match o_st o with
   | OQ s => req_destroy s
   | _ =>
-  let e := match o_st o with OK s => kll_destroy s | OT s => tup_destroy s | OF s => fim_destroy s | OQ _ => [] end in
+  let e := match o_st o with OK s => kll_destroy s | OT s => tup_destroy s | OF s => fim_destroy s | OV s => vo_destroy s | OQ _ => [] end in
   let '(L, bad) := judge [] (o_led o) e in
   bad || negb (is_nil L)
   end.
 
 Definition obj_moved_from (o : obj) : obj :=
   {| o_st := match o_st o with OK s => OK (kll_moved_from s) | OT s => OT (tup_moved_from s) | OF s => OF (fim_moved_from s)
-                             | OQ s => OQ (req_moved_from s) end;
+                             | OQ s => OQ (req_moved_from s) | OV s => OV (vo_moved_from s) end;
      o_led := [] |}.
 
 Inductive ures := UDone (o : obj) (bad : bool) | URefused (o : obj) (bad : bool).
@@ -93,6 +94,11 @@ Definition obj_update (o : obj) (v w : Z) (e : line) : ures :=
       | Some (s', bad) => UDone (mkq s') bad
       | None => URefused o true
       end
+  | OV s =>
+      match vo_update s (map zN e) with
+      | Some (s', es) => let '(L, bad) := judge [] (o_led o) es in UDone {| o_st := OV s'; o_led := L |} bad
+      | None => URefused o false
+      end
   end.
 
 (* merge of [s] into [r] (by reference or by move) *)
@@ -118,6 +124,9 @@ Definition obj_merge (r s : obj) : option ures :=
 
 Definition obj_reset (o : obj) : option (obj * bool) :=
   match o_st o with
+  | OV s => match vo_reset s with
+            | Some (s', es) => let '(L, bad) := judge [] (o_led o) es in Some ({| o_st := OV s'; o_led := L |}, bad)
+            | None => None end
   | OT s => match tup_reset s with
             | Some (s', es) => let '(L, bad) := judge [] (o_led o) es in Some ({| o_st := OT s'; o_led := L |}, bad)
             | None => None end
@@ -138,6 +147,8 @@ Definition obj_new (kind p1 p2 : Z) : option (obj * bool) :=
                   else let '(s, e) := new_tup (zN p1) (zN p2) in Some (OT s, e)
            | 2 => if (p1 <? 0) || (p2 <? 0) || (12 <? p1) || (12 <? p2) then None
                   else match new_fim (zN p1) (zN p2) with Some (s, e) => Some (OF s, e) | None => None end
+           | 4 => if (p1 <? 1) || (65535 <? p1) || (p2 <? 0) || (3 <? p2) then None
+                  else let '(s, e) := new_vo (zN p1) (zN p2) in Some (OV s, e)
            | _ => None
            end in
   match r with
